@@ -106,7 +106,7 @@ def judge_project(spec: dict, rng: random.Random, props=("C01", "C08", "C09"), t
         api_a = rng.choice(["hook", "builder"])
         api_b = "builder" if api_a == "hook" else "hook"
         thorough = tier == "thorough"
-        base_kinds = ["wheel", "editable", "sdist", "prepare"] + (["wheel_md"] if thorough else [])
+        base_kinds = ["wheel", "editable", "sdist", "prepare", "prepare_editable"] + (["wheel_md"] if thorough else [])
         base_res = run_builds(A, tmp / "o-base", api=api_a, kinds=base_kinds, config_settings=cs,
                               oplog=True, cwd=tmp)
         _count(base_res, stats)
@@ -142,6 +142,16 @@ def judge_project(spec: dict, rng: random.Random, props=("C01", "C08", "C09"), t
             builds.append(_entry(label, api, root, cs, sde, same_root, hashseed, r, perturbation))
             return r
 
+        if "C01" in props:
+            # a front end runs the metadata hook and the build hook in separate processes: the prepared dist-info of another process
+            # (another string-hash seed) is compared with the wheels of the base process
+            hs0 = str(rng.randrange(1, 10**6))
+            r = run_builds(A, tmp / "o-prep-other", api=api_a, kinds=("prepare", "prepare_editable"), env_extra={"PYTHONHASHSEED": hs0},
+                           config_settings=cs, cwd=tmp)
+            _count(r, stats)
+            pe = _entry("prepared-in-another-process", api_a, A, cs, None, True, hs0, r, f"hashseed {hs0}")
+            pe["compare_with"] = "base"
+            builds.append(pe)
         if thorough:
             r = run_builds(A, tmp / "o-base2", api=api_b, kinds=base_kinds, config_settings=cs, oplog=True, cwd="/")
             _count(r, stats)
